@@ -43,3 +43,9 @@ package xpull
 //@ func (*socket).SendMsg
 //@   modifies none
 //@   ensures result == protocol.ErrProtoOp
+// ---- generated deadline contracts (tools/gen_deadline_contracts.py) ----
+//@ func (*socket).RecvMsg
+//@   before select#1 assert s.recvExpire > 0 ==> timer_d(tq) == s.recvExpire
+//@   ensures sel("select#1") == 1 ==> result0 == nil && result1 == protocol.ErrRecvTimeout
+//@
+// ---- end generated deadline contracts ----
